@@ -16,7 +16,8 @@ REDUCE_KEYS = ["pdb"]
 LEVEL = "exploration"
 RULE = ("structures (several chains incl. lower-case/digit ids, insertion codes, negative numbers, ligands, ions, "
         "bridged and free CYS) x residue lists rendered as chain:num[icode]: random subsets, singletons, all residues, "
-        "lists with phantom residues/chains, duplicates, any order; API histories in which one options object serves "
+        "lists with phantom residues/chains, duplicates, any order, alone or together with a chain selection (-c); one "
+        "command-line invocation over two files with one list; API histories in which one options object serves "
         "2-3 calculations with different lists. Non-trivial: a listed reported group has, in the "
         "option-free run, determinants from both listed and unlisted partners (or, for the all-residues clause, the "
         "structure has >= 2 groups with determinants); distinct by hash of (input, list).")
@@ -46,11 +47,14 @@ def gres(g):
 def check_case(case):
     text, listed = case["pdb"], [tuple(x) for x in case["listed"]]
     phantoms = [tuple(x) for x in case.get("phantoms", [])]
-    r0 = observe.run(text, [], name="a", keep_mol=True)
+    copt = []
+    for c in case.get("chains") or []:
+        copt += ["-c", c]
+    r0 = observe.run(text, copt, name="a", keep_mol=True)
     if r0["error"]:
         return [], {"labels": ["base-error"]}
     arg = render(listed + phantoms)
-    r1 = observe.run(text, ["-i", arg], name="a")
+    r1 = observe.run(text, copt + ["-i", arg], name="a")
     v = []
     if r1["error"]:
         return [{"clause": "titrate-only-runs", "detail": "error with -i %s: %r" % (arg[:80], r1["error"])}], {}
@@ -158,7 +162,7 @@ def check_case(case):
         nontrivial = common.interaction_stats(r0)["with_dets"] >= 2
         labels.append("all-residues")
     if phantoms and not v:
-        r2 = observe.run(text, ["-i", render(listed)], name="a") if listed else None
+        r2 = observe.run(text, copt + ["-i", render(listed)], name="a") if listed else None
         if r2 is not None:
             diffs = observe.compare_records(r2, r1, tol=0.0)
             if diffs or r2["pka_text"] != r1["pka_text"]:
@@ -199,7 +203,58 @@ def shared_options_case(case):
     return v, {"labels": ["shared-options:%d" % len(case["lists"])], "nontrivial": len(case["lists"]) > 1}
 
 
+def invocation_case(case):
+    """propka.run.main over two files with one list: every written file must be the file a run of that input alone with
+    the same list writes."""
+    import logging
+    import os
+    import propka.run
+    arg = render([tuple(x) for x in case["listed"]])
+    names = []
+    for n, text in enumerate(case["pdbs"]):
+        with open("inv%d.pdb" % n, "w") as fh:
+            fh.write(text)
+        names.append("inv%d.pdb" % n)
+    args = ["-i", arg]
+    for fn in names[:-1]:
+        args += ["-f", fn]
+    args.append(names[-1])
+    root = logging.getLogger("")
+    before = list(root.handlers)
+    err = None
+    try:
+        propka.run.main([args])
+    except BaseException as e:
+        if isinstance(e, KeyboardInterrupt):
+            raise
+        err = "%s: %s" % (type(e).__name__, e)
+    finally:
+        for h in list(root.handlers):
+            if h not in before:
+                root.removeHandler(h)
+    v = []
+    for n, text in enumerate(case["pdbs"]):
+        want = observe.run(text, ["-i", arg], name="ref%d" % n)
+        fn = "inv%d.pka" % n
+        got = None
+        if os.path.exists(fn):
+            got = open(fn).read().split("\n", 1)[1]
+            os.remove(fn)
+        os.remove("inv%d.pdb" % n)
+        if want["error"]:
+            continue
+        if got != want["pka_text"] and not v:
+            la, lb = (got or "").splitlines(), want["pka_text"].splitlines()
+            i = next((i for i, (x, y) in enumerate(zip(la, lb)) if x != y), min(len(la), len(lb)))
+            v.append({"clause": "invocation==single-runs", "detail": "file %d of %d in one invocation with -i %s%s: line "
+                      "%d: %r vs %r" % (n + 1, len(names), arg[:60], " (%s)" % err if err else "", i, la[i:i + 1],
+                                        lb[i:i + 1])})
+    return v, {"labels": ["invocation"], "nontrivial": True}
+
+
 def replay(case):
+    if case.get("kind") == "invocation":
+        return invocation_case(case)[0]
     if case.get("kind") == "shared-options":
         return shared_options_case(case)[0]
     return check_case(case)[0]
@@ -240,14 +295,23 @@ def run_shard(ctx):
                 i = draw(st.sampled_from([" ", "Z"]))
                 if (c, n, i) not in ids:
                     phantoms.append((c, n, i))
-        return s, pdbio.write(entries), list(listed), phantoms, mode == "all"
+        chains = []
+        cids = []
+        for r in ids:
+            if r[0] not in cids:
+                cids.append(r[0])
+        if len(cids) >= 2 and draw(st.integers(0, 3)) == 0:
+            # together with a chain selection: the list then acts on what the selection kept
+            chains = list(draw(st.permutations(cids))[:draw(st.integers(1, len(cids)))])
+        return s, pdbio.write(entries), list(listed), phantoms, mode == "all", chains
 
     def body(t):
-        s, text, listed, phantoms, is_all = t
+        s, text, listed, phantoms, is_all, chains = t
         case = {"pdb": text, "listed": [list(x) for x in listed], "phantoms": [list(x) for x in phantoms],
-                "all": is_all}
+                "all": is_all, "chains": chains}
         v, info = check_case(case)
-        info["labels"] = info.get("labels", []) + [l for l in s.labels if l in ("icode", "negative-numbers")]
+        info["labels"] = info.get("labels", []) + [l for l in s.labels if l in ("icode", "negative-numbers")] + \
+            (["with-chain-selection"] if chains else [])
         info["sample"] = {"structure": s.summary(), "titrate_only": render(listed + phantoms)[:300]}
         ctx.account(case, v, info)
 
@@ -305,6 +369,34 @@ def run_shard(ctx):
         ctx.account(case, v, info)
 
     ctx.hypothesis_stage("one-options-object-several-lists", shared_cases(), shared_body, 300 if quick else 4000)
+
+    @st.composite
+    def inv_cases(draw):
+        a = draw(gen.structures(max_res=20 if quick else 40, allow_icode=True))
+        b = draw(gen.structures(max_res=20 if quick else 40, allow_icode=True))
+        texts = []
+        ids = []
+        for s in (a, b):
+            entries = [e.copy() if isinstance(e, Atom) else e for e in s.entries]
+            for x in pdbio.atoms_of(entries):
+                if x.chain == " ":
+                    x.chain = "Q"
+            texts.append(pdbio.write(entries))
+            ids.append(residue_ids(entries))
+        listed = [r for r in ids[0] + [r for r in ids[1] if r not in ids[0]] if draw(st.booleans())] or ids[1][:1]
+        listed = list(draw(st.permutations(listed)))
+        if draw(st.booleans()):
+            texts.reverse()
+        return a, texts, listed
+
+    def inv_body(t):
+        a, texts, listed = t
+        case = {"kind": "invocation", "pdbs": texts, "listed": [list(x) for x in listed]}
+        v, info = invocation_case(case)
+        info["sample"] = {"first_structure": a.summary(), "titrate_only": render(listed)[:200]}
+        ctx.account(case, v, info)
+
+    ctx.hypothesis_stage("one-invocation-two-files", inv_cases(), inv_body, 200 if quick else 3000)
 
     # the repository's own bridged structure: listing everything / cysteines only
     if ctx.shard == 0:
